@@ -52,7 +52,11 @@ fn filter(leaf: &Leaf) -> BoxedStrategy<Filter> {
 		let (x1, y1) = if kind == 3 { (x0, y0) } else { (x1.max(x0), y1.max(y0)) }; // degenerate point
 		Filter::Bbox([g::lon(x0, z).clamp(-180.0, 180.0), g::lat(y1, z).clamp(-90.0, 90.0), g::lon(x1, z).clamp(-180.0, 180.0), g::lat(y0, z).clamp(-90.0, 90.0)])
 	});
-	prop_oneof![3 => zooms, 4 => near, 1 => geo_bbox().prop_map(Filter::Bbox)].boxed()
+	// boxes spanning (nearly) all longitudes whose latitude limits lie between 84 and 90 degrees:
+	// at zoom >= 10 the rows next to the poles are outside of a box ending at 85 degrees
+	let polar = (prop_oneof![Just(85.0f64), Just(85.04), Just(85.0511), Just(84.9), Just(90.0), 84.0f64..86.0], prop_oneof![Just(85.0f64), Just(85.02), Just(90.0), Just(85.0511287798066), 84.0f64..86.0], prop_oneof![3 => Just((-180.0f64, 180.0f64)), 1 => Just((-180.0, 179.9)), 1 => Just((-179.99, 180.0))])
+		.prop_map(|(n, s, (w, e))| Filter::Bbox([w, -s, e, n]));
+	prop_oneof![3 => zooms, 4 => near, 1 => geo_bbox().prop_map(Filter::Bbox), 1 => polar].boxed()
 }
 
 fn strategy() -> impl Strategy<Value = Case> {
@@ -183,33 +187,52 @@ struct BadCase {
 	/// the transform stage text after `from_container filename="leaf0" | `
 	stage: String,
 	valid: bool,
+	/// index into `PREFIXES`: a valid stage in front of the examined one (0 = none)
+	#[serde(default)]
+	prefix: u8,
 }
 
+/// valid stages that keep everything, something, or nothing of the source
+const PREFIXES: [&str; 7] = ["", "filter_zoom min=0", "filter_zoom min=7 max=3", "filter_zoom min=30", "filter_bbox bbox=[170,80,171,81]", "filter_zoom max=2 | filter_zoom min=5", "filter_bbox bbox=[-180,-85,180,85]"];
+
 fn bad_strategy() -> impl Strategy<Value = BadCase> {
+	(bad_stage(), prop_oneof![3 => Just(0u8), 4 => 1u8..PREFIXES.len() as u8]).prop_map(|(mut c, prefix)| {
+		c.prefix = prefix;
+		c
+	})
+}
+
+fn bad_stage() -> impl Strategy<Value = BadCase> {
 	let num = || prop_oneof![(-400i32..400).prop_map(|v| v.to_string()), (-400.0f64..400.0).prop_map(|v| format!("{v:.3}"))];
 	prop_oneof![
 		// positive controls
-		(0u8..=40, 0u8..=40).prop_map(|(a, b)| BadCase { class: "valid-zoom".into(), stage: format!("filter_zoom min={a} max={b}"), valid: true }),
-		(-180.0f64..180.0, -90.0f64..90.0, 0.0f64..100.0, 0.0f64..50.0).prop_map(|(w, s, dw, dh)| BadCase { class: "valid-bbox".into(), stage: format!("filter_bbox bbox=[{},{},{},{}]", w, s, (w + dw).min(180.0), (s + dh).min(90.0)), valid: true }),
+		(0u8..=40, 0u8..=40).prop_map(|(a, b)| BadCase { class: "valid-zoom".into(), stage: format!("filter_zoom min={a} max={b}"), valid: true, prefix: 0 }),
+		(-180.0f64..180.0, -90.0f64..90.0, 0.0f64..100.0, 0.0f64..50.0).prop_map(|(w, s, dw, dh)| BadCase { class: "valid-bbox".into(), stage: format!("filter_bbox bbox=[{},{},{},{}]", w, s, (w + dw).min(180.0), (s + dh).min(90.0)), valid: true, prefix: 0 }),
 		// invalid ones
-		"[a-zA-Z]{1,6}".prop_map(|w| BadCase { class: "zoom:non-numeric".into(), stage: format!("filter_zoom min={w}"), valid: false }),
-		(256u32..100000).prop_map(|v| BadCase { class: "zoom:u8-overflow".into(), stage: format!("filter_zoom max={v}"), valid: false }),
-		(1i32..300).prop_map(|v| BadCase { class: "zoom:negative".into(), stage: format!("filter_zoom min=-{v}"), valid: false }),
-		(0u8..9, 0u8..9).prop_map(|(a, b)| BadCase { class: "zoom:list-for-scalar".into(), stage: format!("filter_zoom min=[{a},{b}]"), valid: false }),
-		proptest::collection::vec(num(), 0..8).prop_filter("arity", |v| v.len() != 4).prop_map(|v| BadCase { class: format!("bbox:arity-{}", v.len()), stage: format!("filter_bbox bbox=[{}]", v.join(",")), valid: false }),
+		"[a-zA-Z]{1,6}".prop_map(|w| BadCase { class: "zoom:non-numeric".into(), stage: format!("filter_zoom min={w}"), valid: false, prefix: 0 }),
+		(256u32..100000).prop_map(|v| BadCase { class: "zoom:u8-overflow".into(), stage: format!("filter_zoom max={v}"), valid: false, prefix: 0 }),
+		(1i32..300).prop_map(|v| BadCase { class: "zoom:negative".into(), stage: format!("filter_zoom min=-{v}"), valid: false, prefix: 0 }),
+		(0u8..9, 0u8..9).prop_map(|(a, b)| BadCase { class: "zoom:list-for-scalar".into(), stage: format!("filter_zoom min=[{a},{b}]"), valid: false, prefix: 0 }),
+		proptest::collection::vec(num(), 0..8).prop_filter("arity", |v| v.len() != 4).prop_map(|v| BadCase { class: format!("bbox:arity-{}", v.len()), stage: format!("filter_bbox bbox=[{}]", v.join(",")), valid: false, prefix: 0 }),
 		("[a-zA-Z]{1,5}", 0usize..4).prop_map(|(w, i)| {
 			let mut v = vec!["-10".to_string(), "-10".into(), "10".into(), "10".into()];
 			v[i] = w;
-			BadCase { class: "bbox:non-numeric".into(), stage: format!("filter_bbox bbox=[{}]", v.join(",")), valid: false }
+			BadCase { class: "bbox:non-numeric".into(), stage: format!("filter_bbox bbox=[{}]", v.join(",")), valid: false, prefix: 0 }
 		}),
-		(-179.0f64..179.0, 0.001f64..100.0, -80.0f64..80.0).prop_map(|(e, d, s)| BadCase { class: "bbox:west>east".into(), stage: format!("filter_bbox bbox=[{},{},{},{}]", (e + d).min(180.0), s, e, s + 1.0), valid: false }),
-		(-89.0f64..89.0, 0.001f64..100.0, -170.0f64..170.0).prop_map(|(n, d, w)| BadCase { class: "bbox:south>north".into(), stage: format!("filter_bbox bbox=[{},{},{},{}]", w, (n + d).min(90.0), w + 1.0, n), valid: false }),
+		(-179.0f64..179.0, 0.001f64..100.0, -80.0f64..80.0).prop_map(|(e, d, s)| BadCase { class: "bbox:west>east".into(), stage: format!("filter_bbox bbox=[{},{},{},{}]", (e + d).min(180.0), s, e, s + 1.0), valid: false, prefix: 0 }),
+		(-89.0f64..89.0, 0.001f64..100.0, -170.0f64..170.0).prop_map(|(n, d, w)| BadCase { class: "bbox:south>north".into(), stage: format!("filter_bbox bbox=[{},{},{},{}]", w, (n + d).min(90.0), w + 1.0, n), valid: false, prefix: 0 }),
 		(180.001f64..1000.0, 0usize..4).prop_map(|(v, i)| {
 			let mut b = [-10.0, -10.0, 10.0, 10.0];
 			b[i] = if i < 2 { -v } else { v };
-			BadCase { class: "bbox:out-of-range".into(), stage: format!("filter_bbox bbox=[{},{},{},{}]", b[0], b[1], b[2], b[3]), valid: false }
+			BadCase { class: "bbox:out-of-range".into(), stage: format!("filter_bbox bbox=[{},{},{},{}]", b[0], b[1], b[2], b[3]), valid: false, prefix: 0 }
 		}),
-		Just(BadCase { class: "bbox:missing".into(), stage: "filter_bbox".into(), valid: false }),
+		Just(BadCase { class: "bbox:missing".into(), stage: "filter_bbox".into(), valid: false, prefix: 0 }),
+		// not-a-number and infinities in every spelling the number parser accepts
+		(prop_oneof![Just("NaN"), Just("nan"), Just("inf"), Just("-inf"), Just("infinity"), Just("-Infinity"), Just("\"NaN\"")], 0usize..4).prop_map(|(w, i)| {
+			let mut v = vec!["-10".to_string(), "-10".into(), "10".into(), "10".into()];
+			v[i] = w.to_string();
+			BadCase { class: "bbox:nan-or-infinite".into(), stage: format!("filter_bbox bbox=[{}]", v.join(",")), valid: false, prefix: 0 }
+		}),
 	]
 }
 
@@ -218,9 +241,11 @@ fn bad_oracle(case: &BadCase, obs: &mut Obs) -> Result<(), Fail> {
 	let set = leaf.spec.materialise();
 	let reader: Box<dyn versatiles_core::types::TilesReaderTrait> = Box::new(vt::model::MemReader::new(&set, "mem"));
 	let factory = factory_with(vec![reader], std::path::Path::new(""));
-	let text = format!("from_container filename=\"leaf0\" | {}", case.stage);
+	let prefix = PREFIXES[case.prefix as usize % PREFIXES.len()];
+	let text = if prefix.is_empty() { format!("from_container filename=\"leaf0\" | {}", case.stage) } else { format!("from_container filename=\"leaf0\" | {prefix} | {}", case.stage) };
 	let r = guard(|| util::block_on(factory.operation_from_vpl(&text)));
 	obs.label(case.class.clone());
+	obs.label_if(matches!(case.prefix as usize % PREFIXES.len(), 2 | 3 | 4 | 5), "behind-a-stage-that-keeps-nothing");
 	obs.nontrivial(true);
 	match (r, case.valid) {
 		(Err(p), _) => Err(Fail::from_panic(&format!("building {text:?}"), &p)),
@@ -234,7 +259,7 @@ fn main() {
 	let mut check = Check::from_args(
 		"C09",
 		"exploration",
-		"a leaf source (in-memory or container fixture of any format) under a chain of 1-3 filters: filter_zoom with min/max in 0..=40 incl. min > max and open ends, filter_bbox with geographic boxes derived from the source's coverage in tile space (on tile edges, cutting through tiles, degenerate points, containing / disjoint) or arbitrary; oracle: lookup(c) and streams over generated boxes return the source's stored bytes exactly when c is in every zoom range and definitely inside every bbox by the independent Mercator reference (tiles on the 1e-6 guard band are don't-care), nothing otherwise; second phase: invalid arguments (non-numeric, u8 overflow, negative, list for scalar, arity != 4, west > east, south > north, out of +-180/+-90, missing) must make operation_from_vpl return Err (not Ok, not panic), valid controls must build; non-trivial = chain that removes some but not all tiles of the source",
+		"a leaf source (in-memory or container fixture of any format) under a chain of 1-3 filters: filter_zoom with min/max in 0..=40 incl. min > max and open ends, filter_bbox with geographic boxes derived from the source's coverage in tile space (on tile edges, cutting through tiles, degenerate points, containing / disjoint), boxes over all longitudes with latitude limits between 84 and 90 degrees, or arbitrary; oracle: lookup(c) and streams over generated boxes return the source's stored bytes exactly when c is in every zoom range and definitely inside every bbox by the independent Mercator reference (tiles on the 1e-6 guard band are don't-care), nothing otherwise; second phase: invalid arguments (non-numeric, u8 overflow, negative, list for scalar, arity != 4, west > east, south > north, out of +-180/+-90, NaN / infinities, missing; directly behind the source or behind a valid stage that keeps everything, something or nothing) must make operation_from_vpl return Err (not Ok, not panic), valid controls must build; non-trivial = chain that removes some but not all tiles of the source",
 	);
 	vt::engine::watchdog(3600);
 	vt::sources::MBTILES_THINNING.store(25, std::sync::atomic::Ordering::Relaxed);
